@@ -753,6 +753,9 @@ func (g *gen) msgidPlaceholder() {
 	wantBody := "{ ident = leadingOrTrailing_.ReplaceAllString(ident, \"\") ident = consecutive_.ReplaceAllString(ident, \"${1}_${2}\") ident = wordBoundary1.ReplaceAllString(ident, \"${1}_${2}\") ident = wordBoundary2.ReplaceAllString(ident, \"${1}_${2}\") ident = wordBoundary3.ReplaceAllString(ident, \"${1}_${2}\") return strings.ToUpper(ident) }"
 	if fd := g.funcDecl(rel, "toUpperUnderscore"); fd == nil {
 		g.fail("toUpperUnderscore: function not found")
+	} else if g.gotransCovers("soymsg", "toUpperUnderscore", nil) {
+		// tied by gotrans: to_upper_underscore_matches_source (Proofs/SourceTieMsgLoops.v) is proved against today's body
+		// (the order of the replacements and their templates), whatever its text
 	} else if got := g.src(fd.Body); got != wantBody {
 		g.fail("toUpperUnderscore: body changed (the order of the replacements and their templates are modelled by hand): %s", got)
 	}
